@@ -28,9 +28,10 @@
      C06_all_pairs_executed ranges over the rated codes of the table, none of which is a time-zone name
      (C06_reachable_all_pairs is about the rule function, not the lexer, and is unrestricted). *)
 From Coq Require Import QArith Qcanon Floats.
-From SC.Model Require Import Base Num NumF64 NumQ Types Config Case Chrono Parser RuleFns Items UiTokens Rx Rules Lexer Api Run64 Corr.
+From SC.Model Require Import Base Num NumF64 NumQ Types Config Case Chrono Parser RuleFns Items UiTokens Regex Rx Rules Lexer Api Run64 Corr.
 From SC.Spec Require Import Money.
-From SC.Gen Require Import RustConsts ConfigData.
+From SC.Gen Require Import RustConsts ConfigData Regexes.
+From SC.Proofs Require Import RegexLemmas RegexNeeds.
 From SC.Proofs Require Import C06.
 
 (* ---------- the conversion rule ---------- *)
@@ -337,6 +338,93 @@ Proof. exact all_pairs_executed. Qed.
 Theorem C06_pairs_nonvacuous : (1 <=? length conversion_words)%nat && (2 <=? length rated_codes)%nat = true.
 Proof. exact pairs_nonvacuous. Qed.
 
+(* ---------- the money regexes on ALL digit strings ---------- *)
+(* Scope of this group.  Universal in the amount digits (unbounded): the forms `digits blanks word`
+   (k >= 0 blanks, word in any letter case) and `symbol digits`, at the level of the money parser
+   (over_regexes money_body over the five regexes of parse.money, from the empty token state).
+   NOT covered universally, only by the finite end-to-end tables above (C06_literal_spellings,
+   C06_literal_suffix_spellings, C06_alias_literals) and by the generator: amounts with a sign, a
+   decimal or a thousands separator (`12,5`, `1.250,75`), the suffix forms (k K M), a symbol after
+   the amount, and the parsers that run after the money parser in regex_tokinizer (the token_infos
+   level; the time regex `(hour) ?(am|pm)` and the text / time-zone regexes do match on letter words,
+   so the alphabet analysis of RegexNeeds does not silence them). *)
+(* Covered form: `ds blanks w` - ds any non-empty string of the digits 0-9 (no sign, no separator),
+   any number k >= 0 of blanks (so `25usd` and `25 usd`), w any word of two or more ASCII letters in
+   any letter case.  MONEY = the compiled regexes of parse.money regenerated from config.json
+   (RegexNeeds.cres_of "money"); digit, blanks: Proofs/RegexNeeds.v; letter: Proofs/C06.v. *)
+
+(* regex level: regex 2 (PRICE blanks CURRENCY) matches exactly once, the whole line, with PRICE = the
+   digits and CURRENCY = the word; the other four regexes do not match at all *)
+Theorem C06_money_regexes_on_literal : forall (ds w : str) (k : nat),
+  ds <> [] -> forallb digit ds = true -> forallb letter w = true -> (2 <= length w)%nat ->
+  let n := N.of_nat (length ds) in
+  let pw := (n + N.of_nat k)%N in
+  let tot := (pw + N.of_nat (length w))%N in
+  MONEY = [R1; R2; R3; R4; R5] /\
+  caps_iter R2 (ds ++ blanks k ++ w) = [[Some (0%N, tot); Some (0%N, n); Some (pw, tot)]] /\
+  caps_iter R1 (ds ++ blanks k ++ w) = [] /\ caps_iter R3 (ds ++ blanks k ++ w) = [] /\
+  caps_iter R4 (ds ++ blanks k ++ w) = [] /\ caps_iter R5 (ds ++ blanks k ++ w) = [].
+Proof. exact money_regexes_on_literal. Qed.
+
+(* parser level, every number algebra and configuration: from the empty state the money parser adds
+   exactly ONE token: Money(x, code) over the whole line, x the decimal reading of the digits and code
+   what read_currency makes of the word (infos_shape = start, end, type, text, active of each token) *)
+Theorem C06_money_literal_parser : forall (G : Type) (NG : Num G) (cfg : config G) (ds w : str) (k : nat) (x : G) (code : str),
+  ds <> [] -> forallb digit ds = true -> forallb letter w = true -> (2 <= length w)%nat ->
+  read_decimal cfg ds = Some x -> read_currency cfg w = Some code ->
+  infos_shape (over_regexes (money_body cfg (ds ++ blanks k ++ w)) (ds ++ blanks k ++ w) MONEY empty_state)
+  = Some [(0%N, (N.of_nat (length ds) + N.of_nat k + N.of_nat (length w))%N, Some (TMoney x code), ds, true)].
+Proof. exact (@money_literal_parser). Qed.
+
+(* the regenerated currency table (all of its codes, rated or not; TMT and WST included: class C06-K4
+   concerns the later time-zone parser, not the money parser): the code written in ANY mix of cases *)
+Theorem C06_money_literal_any_case : forall (ds : str) (k : nat) (name A : str) (x : float),
+  ds <> [] -> forallb digit ds = true ->
+  forallb letter name = true -> (2 <= length name)%nat ->
+  In A (table_codes default_config) -> to_lowercase name = to_lowercase A ->
+  read_decimal default_config ds = Some x ->
+  infos_shape (over_regexes (money_body default_config (ds ++ blanks k ++ name)) (ds ++ blanks k ++ name) MONEY empty_state)
+  = Some [(0%N, (N.of_nat (length ds) + N.of_nat k + N.of_nat (length name))%N, Some (TMoney x A), ds, true)].
+Proof. exact money_literal_any_case. Qed.
+
+(* ... in particular in lower and in upper case (that these are words is checked over the table) *)
+Theorem C06_money_literal_codes : forall (ds : str) (k : nat) (A : str) (x : float),
+  ds <> [] -> forallb digit ds = true -> In A (table_codes default_config) ->
+  read_decimal default_config ds = Some x ->
+  forall name, name = to_lowercase A \/ name = to_uppercase A ->
+  infos_shape (over_regexes (money_body default_config (ds ++ blanks k ++ name)) (ds ++ blanks k ++ name) MONEY empty_state)
+  = Some [(0%N, (N.of_nat (length ds) + N.of_nat k + N.of_nat (length name))%N, Some (TMoney x A), ds, true)].
+Proof. exact money_literal_codes. Qed.
+
+Theorem C06_money_literal_nonvacuous :
+  read_decimal default_config (s "250") = Some 250%float /\ forallb digit (s "0123456789") = true /\
+  mem_str (s "USD") (table_codes default_config) = true /\ word_ok (s "usd") = true /\
+  length (table_codes default_config) = length (cf_currency default_config).
+Proof. exact money_literal_nonvacuous. Qed.
+
+(* Covered form: `c ds` - c a currency symbol with sym_ok c = true (it is a Unicode currency symbol, no
+   sign or digit, and regexes 2, 4, 5 cannot match on c and digits), ds as above.  Regex 1 matches once
+   with an EMPTY NOTATION group, so the amount is x * 1 (fmul x f1; equal to x at binary64). *)
+Theorem C06_money_symbol_parser : forall (G : Type) (NG : Num G) (cfg : config G) (c : N) (ds : str) (x : G) (code : str),
+  sym_ok c = true -> ds <> [] -> forallb digit ds = true ->
+  read_decimal cfg ds = Some x -> read_currency cfg [c] = Some code ->
+  infos_shape (over_regexes (money_body cfg (c :: ds)) (c :: ds) MONEY empty_state)
+  = Some [(0%N, (utf8_width c + N.of_nat (length ds))%N, Some (TMoney (fmul x f1) code), ds, true)].
+Proof. exact (@money_symbol_parser). Qed.
+
+(* every one-character currency-symbol key of the regenerated alias table ($, EUR sign, TRY sign) *)
+Theorem C06_money_symbol_table : forall (c : N) (ds : str) (x : float),
+  In c (alias_symbols default_config) -> ds <> [] -> forallb digit ds = true ->
+  read_decimal default_config ds = Some x ->
+  exists A, read_currency default_config [c] = Some A /\ rate_of default_config A <> None /\
+    infos_shape (over_regexes (money_body default_config (c :: ds)) (c :: ds) MONEY empty_state)
+    = Some [(0%N, (utf8_width c + N.of_nat (length ds))%N, Some (TMoney (fmul x f1) A), ds, true)].
+Proof. exact money_symbol_table. Qed.
+
+Theorem C06_money_symbol_nonvacuous :
+  alias_symbols default_config <> [] /\ mem_str [36%N] (map (fun c => [c]) (alias_symbols default_config)) = true.
+Proof. exact money_symbol_nonvacuous. Qed.
+
 (* ---------- non-vacuity, and where the literal clause does not hold ---------- *)
 Theorem C06_examples :
   map brief (run CK0 init_state example_history) =
@@ -409,3 +497,11 @@ Print Assumptions C06_all_pairs_executed.
 Print Assumptions C06_pairs_nonvacuous.
 Print Assumptions C06_examples.
 Print Assumptions C06_literal_limits.
+Print Assumptions C06_money_regexes_on_literal.
+Print Assumptions C06_money_literal_parser.
+Print Assumptions C06_money_literal_any_case.
+Print Assumptions C06_money_literal_codes.
+Print Assumptions C06_money_literal_nonvacuous.
+Print Assumptions C06_money_symbol_parser.
+Print Assumptions C06_money_symbol_table.
+Print Assumptions C06_money_symbol_nonvacuous.
